@@ -70,12 +70,12 @@ Rejects(o, complete) == DictRejects(o.restr, complete) \/ DictRejects(o.deform, 
 Uses(d, s) == d.given /\ d.entry[s] = "valid"
 (* what reaches the optimiser for each complete species.  sp[s] = [nS, nE, hS, hE, valid] is the species
    (valid = the restraint list used for a "valid" entry); a "valid" ignoreH entry is FALSE (the default is TRUE)
-   and a "valid" deformation entry is (0, 1). *)
+   and a "valid" deformation entry is sp[s].vdef (e.g. (0, 1), or the translation-only (0,)). *)
 Delivered(o, complete, sp) ==
     [s \in complete |->
         LET c == [nS |-> sp[s].nS, nE |-> sp[s].nE, hS |-> sp[s].hS, hE |-> sp[s].hE,
                   restr |-> IF Uses(o.restr, s) THEN sp[s].valid ELSE <<>>,
                   ignoreH |-> ~Uses(o.ignoreH, s)]
         IN [restr |-> AbsDelivered(c), rows |-> KeptRows(c), fixedIsStart |-> FixedIsStart(c),
-            types |-> IF Uses(o.deform, s) THEN {0, 1} ELSE DefaultTypes(c)]]
+            types |-> IF Uses(o.deform, s) THEN sp[s].vdef ELSE DefaultTypes(c)]]
 =============================================================================
